@@ -895,3 +895,234 @@ Proof.
   rewrite firstn_all in Hs. rewrite Hs; [reflexivity|].
   apply serialize_ascii_prefix in H as [t ->]. rewrite app_length. cbn [length ascii_prologue]. lia.
 Qed.
+
+(* ---- parse_ascii never runs out of the fuel it gives its loops ---- *)
+
+Lemma skip_seps_le s : forall ln, (length (snd (skip_seps ln s)) <= length s)%nat.
+Proof.
+  induction s as [|b t IH]; intros ln; cbn [skip_seps]; [cbn; lia|].
+  destruct (is_separator b); [specialize (IH (if b =? 10 then ln + 1 else ln)); cbn [length]; lia|cbn; lia].
+Qed.
+
+Lemma skip_seps_head s : forall ln ln' b t, skip_seps ln s = (ln', b :: t) -> is_separator b = false.
+Proof.
+  induction s as [|c s IH]; intros ln ln' b t; cbn [skip_seps]; [discriminate|].
+  destruct (is_separator c) eqn:E; [apply IH|]. intros [= _ <- _]. exact E.
+Qed.
+
+Lemma span_token_length s : length s = (length (fst (span_token s)) + length (snd (span_token s)))%nat.
+Proof.
+  induction s as [|b t IH]; [reflexivity|]. cbn [span_token].
+  destruct (is_separator b); cbn [fst snd length]; lia.
+Qed.
+
+Lemma span_line_length s : length s = (length (fst (span_line s)) + length (snd (span_line s)))%nat.
+Proof.
+  induction s as [|b t IH]; [reflexivity|]. cbn [span_line].
+  destruct (b =? 10); cbn [fst snd length]; lia.
+Qed.
+
+Lemma skip_separators_spec st st' :
+  skip_separators st = FOk st' ->
+  (length (snd st') <= length (snd st))%nat /\ exists b t, snd st' = b :: t /\ is_separator b = false.
+Proof.
+  unfold skip_separators. destruct (skip_seps (fst st) (snd st)) as [ln' [|b t]] eqn:E; [discriminate|].
+  intros [= <-]. cbn [snd]. split.
+  - pose proof (skip_seps_le (snd st) (fst st)) as H. rewrite E in H. exact H.
+  - exists b, t. split; [reflexivity|]. exact (skip_seps_head _ _ _ _ _ E).
+Qed.
+
+Lemma skip_separators_fuel st : skip_separators st <> FOutOfFuel.
+Proof. unfold skip_separators. destruct (skip_seps _ _) as [? [|? ?]]; discriminate. Qed.
+
+Lemma read_T_spec st :
+  read_T st <> FOutOfFuel /\
+  forall tok st', read_T st = FOk (tok, st') -> (length (snd st') < length (snd st))%nat.
+Proof.
+  unfold read_T. pose proof (skip_separators_fuel st) as Hf.
+  destruct (skip_separators st) as [[ln s]| | |] eqn:E; try (split; [discriminate|intros; discriminate]);
+    [|congruence].
+  apply skip_separators_spec in E as (Hle & b & t & Hs & Hb). cbn [snd] in Hle, Hs. subst s.
+  destruct (utf8_valid (fst (span_token (b :: t)))); (split; [discriminate|]); [|intros; discriminate].
+  intros tok st' [= _ <-]. cbn [snd].
+  pose proof (span_token_length (b :: t)) as Hl. cbn [span_token] in Hl |- *. rewrite Hb in Hl |- *.
+  cbn [fst snd length] in Hl, Hle |- *. lia.
+Qed.
+
+Lemma read_L_spec st :
+  read_L st <> FOutOfFuel /\
+  forall line st', read_L st = FOk (line, st') -> (length (snd st') < length (snd st))%nat.
+Proof.
+  unfold read_L. pose proof (skip_separators_fuel st) as Hf.
+  destruct (skip_separators st) as [[ln s]| | |] eqn:E; try (split; [discriminate|intros; discriminate]);
+    [|congruence].
+  apply skip_separators_spec in E as (Hle & b & t & Hs & Hb). cbn [snd] in Hle, Hs. subst s.
+  destruct (utf8_valid (fst (span_line (b :: t)))); (split; [discriminate|]); [|intros; discriminate].
+  intros line st' [= _ <-]. cbn [snd].
+  pose proof (span_line_length (b :: t)) as Hl. cbn [span_line] in Hl |- *.
+  cbn [length] in Hle. destruct (b =? 10); cbn [fst snd length] in Hl |- *; lia.
+Qed.
+
+Lemma read_usize_spec st :
+  read_usize st <> FOutOfFuel /\
+  forall n st', read_usize st = FOk (n, st') -> (length (snd st') < length (snd st))%nat.
+Proof.
+  unfold read_usize. destruct (read_T_spec st) as [Hf Hc].
+  destruct (read_T st) as [[tok st1]| | |] eqn:E; try (split; [discriminate|intros; discriminate]);
+    [|congruence].
+  destruct (parse_usize tok); (split; [discriminate|]); [|intros; discriminate].
+  intros n' st' [= _ <-]. exact (Hc _ _ eq_refl).
+Qed.
+
+Lemma read_lines_fuel {A} (rd : rstate -> fres (A * rstate)) :
+  (forall st, rd st <> FOutOfFuel /\
+              forall x st', rd st = FOk (x, st') -> (length (snd st') < length (snd st))%nat) ->
+  forall fuel count st, (length (snd st) < fuel)%nat ->
+    read_lines fuel count rd st <> FOutOfFuel /\
+    forall xs st', read_lines fuel count rd st = FOk (xs, st') -> (length (snd st') <= length (snd st))%nat.
+Proof.
+  intros Hrd. induction fuel as [|f IH]; intros count st Hlen; [lia|].
+  cbn [read_lines]. destruct (count =? 0).
+  - split; [discriminate|]. intros xs st' [= _ <-]. lia.
+  - destruct (Hrd st) as [Hf Hc].
+    destruct (rd st) as [[x st1]| | |] eqn:E; try (split; [discriminate|intros; discriminate]);
+      [|congruence].
+    specialize (Hc _ _ eq_refl).
+    destruct (IH (count - 1) st1 ltac:(lia)) as [Hf2 Hc2].
+    destruct (read_lines f (count - 1) rd st1) as [[xs st2]| | |] eqn:E2;
+      try (split; [discriminate|intros; discriminate]); [|congruence].
+    specialize (Hc2 _ _ eq_refl). split; [discriminate|]. intros xs' st' [= _ <-]. lia.
+Qed.
+
+Section AsciiTermination.
+  Variable parse_f64 : list N -> option N.
+
+  Lemma vertex_coords_fuel : forall fuel dim ws,
+    (length ws < fuel)%nat -> vertex_coords parse_f64 fuel dim ws <> FOutOfFuel.
+  Proof.
+    induction fuel as [|f IH]; intros dim ws Hlen; [lia|].
+    cbn [vertex_coords]. destruct (dim =? 0); [discriminate|].
+    destruct ws as [|w ws']; [discriminate|]. destruct (parse_f64 w); [|discriminate].
+    specialize (IH (dim - 1) ws' ltac:(cbn [length] in Hlen; lia)).
+    destruct (vertex_coords parse_f64 f (dim - 1) ws') as [[? ?]| | |]; try discriminate. congruence.
+  Qed.
+
+  Lemma vertex_line_spec dim st :
+    vertex_line parse_f64 dim st <> FOutOfFuel /\
+    forall x st', vertex_line parse_f64 dim st = FOk (x, st') -> (length (snd st') < length (snd st))%nat.
+  Proof.
+    unfold vertex_line. destruct (read_L_spec st) as [Hf Hc].
+    destruct (read_L st) as [[line st1]| | |] eqn:E; try (split; [discriminate|intros; discriminate]);
+      [|congruence].
+    specialize (Hc _ _ eq_refl).
+    pose proof (vertex_coords_fuel (S (length (split_whitespace line))) dim (split_whitespace line) ltac:(lia)) as Hv.
+    destruct (vertex_coords parse_f64 _ dim _) as [[cs rest]| | |];
+      try (split; [discriminate|intros; discriminate]); [|congruence].
+    destruct rest as [|w rest']; [split; [discriminate|]; intros x st' [= _ <-]; exact Hc|].
+    destruct (parse_isize w); [|split; [discriminate|intros; discriminate]].
+    destruct rest'; (split; [discriminate|]); [|intros; discriminate].
+    intros x st' [= _ <-]. exact Hc.
+  Qed.
+
+  Lemma element_nodes_fuel npe : forall ws, element_nodes npe ws <> FOutOfFuel.
+  Proof.
+    induction npe as [|k IH]; intros ws; cbn [element_nodes]; [discriminate|].
+    destruct ws as [|w ws']; [discriminate|]. destruct (parse_usize w) as [c|]; [|discriminate].
+    destruct (c =? 0); [discriminate|]. specialize (IH ws').
+    destruct (element_nodes k ws') as [[? ?]| | |]; try discriminate. congruence.
+  Qed.
+
+  Lemma element_line_spec npe st :
+    element_line npe st <> FOutOfFuel /\
+    forall x st', element_line npe st = FOk (x, st') -> (length (snd st') < length (snd st))%nat.
+  Proof.
+    unfold element_line. destruct (read_L_spec st) as [Hf Hc].
+    destruct (read_L st) as [[line st1]| | |] eqn:E; try (split; [discriminate|intros; discriminate]);
+      [|congruence].
+    specialize (Hc _ _ eq_refl).
+    pose proof (element_nodes_fuel npe (split_whitespace line)) as Hn.
+    destruct (element_nodes npe (split_whitespace line)) as [[ns rest]| | |];
+      try (split; [discriminate|intros; discriminate]); [|congruence].
+    destruct (length ns <? npe)%nat; [split; [discriminate|intros; discriminate]|].
+    destruct rest as [|w rest']; [split; [discriminate|]; intros x st' [= _ <-]; exact Hc|].
+    destruct (parse_isize w); (split; [discriminate|]); [|intros; discriminate].
+    intros x st' [= _ <-]. exact Hc.
+  Qed.
+
+  Lemma skip_line_spec st :
+    skip_line st <> FOutOfFuel /\
+    forall x st', skip_line st = FOk (x, st') -> (length (snd st') < length (snd st))%nat.
+  Proof.
+    unfold skip_line. destruct (read_L_spec st) as [Hf Hc].
+    destruct (read_L st) as [[line st1]| | |] eqn:E; try (split; [discriminate|intros; discriminate]);
+      [|congruence].
+    split; [discriminate|]. intros x st' [= _ <-]. exact (Hc _ _ eq_refl).
+  Qed.
+
+  Lemma find_count_spec : forall fuel prev st, (length (snd st) < fuel)%nat ->
+    find_count fuel prev st <> FOutOfFuel /\
+    forall n st', find_count fuel prev st = FOk (n, st') -> (length (snd st') < length (snd st))%nat.
+  Proof.
+    induction fuel as [|f IH]; intros prev st Hlen; [lia|].
+    cbn [find_count]. destruct (read_T_spec st) as [Hf Hc].
+    destruct (read_T st) as [[tok st1]| | |] eqn:E; try (split; [discriminate|intros; discriminate]);
+      [|congruence].
+    specialize (Hc _ _ eq_refl).
+    destruct (parse_usize tok) as [n|].
+    - split; [discriminate|]. intros n' st' [= _ <-]. exact Hc.
+    - destruct (fst st1 =? prev); [|split; [discriminate|intros; discriminate]].
+      destruct (IH prev st1 ltac:(lia)) as [Hf2 Hc2]. split; [exact Hf2|].
+      intros n st' H. specialize (Hc2 _ _ H). lia.
+  Qed.
+
+  Lemma parse_sections_fuel : forall fuel m st,
+    (length (snd st) < fuel)%nat -> parse_sections parse_f64 fuel m st <> FOutOfFuel.
+  Proof.
+    induction fuel as [|f IH]; intros m st Hlen; [lia|].
+    cbn [parse_sections]. destruct (read_T_spec st) as [Hf Hc].
+    destruct (read_T st) as [[sec st1]| | |] eqn:E; try discriminate; [|congruence].
+    specialize (Hc _ _ eq_refl).
+    destruct (bytes_eqb sec kw_end); [discriminate|].
+    destruct (bytes_eqb sec kw_vertices).
+    - destruct (read_usize_spec st1) as [Hf1 Hc1].
+      destruct (read_usize st1) as [[nv st2]| | |] eqn:E1; try discriminate; [|congruence].
+      specialize (Hc1 _ _ eq_refl).
+      destruct (match cap8_check (m_dim m) nv with Some p => Some p | None => cap8_check nv 1 end); [discriminate|].
+      destruct (read_lines_fuel (vertex_line parse_f64 (m_dim m)) (vertex_line_spec (m_dim m))
+                  (S (length (snd st2))) nv st2 ltac:(lia)) as [Hf2 Hc2].
+      destruct (read_lines _ nv _ st2) as [[vs st3]| | |] eqn:E2; try discriminate; [|congruence].
+      specialize (Hc2 _ _ eq_refl). apply IH. lia.
+    - destruct (lookup_kw sec etype_keywords) as [ty|].
+      + destruct (find_count_spec (S (length (snd st1))) (fst st1) st1 ltac:(lia)) as [Hf1 Hc1].
+        destruct (find_count _ _ st1) as [[ne st2]| | |] eqn:E1; try discriminate; [|congruence].
+        specialize (Hc1 _ _ eq_refl).
+        destruct (cap8_check ne (N.of_nat (etype_node_count ty))); [discriminate|].
+        destruct (read_lines_fuel (element_line (etype_node_count ty)) (element_line_spec (etype_node_count ty))
+                    (S (length (snd st2))) ne st2 ltac:(lia)) as [Hf2 Hc2].
+        destruct (read_lines _ ne _ st2) as [[es st3]| | |] eqn:E2; try discriminate; [|congruence].
+        specialize (Hc2 _ _ eq_refl). apply IH. lia.
+      + destruct (mem_kw sec ascii_skipped_sections); [|discriminate].
+        destruct (read_usize_spec st1) as [Hf1 Hc1].
+        destruct (read_usize st1) as [[ne st2]| | |] eqn:E1; try discriminate; [|congruence].
+        specialize (Hc1 _ _ eq_refl).
+        destruct (read_lines_fuel skip_line skip_line_spec (S (length (snd st2))) ne st2 ltac:(lia)) as [Hf2 Hc2].
+        destruct (read_lines _ ne skip_line st2) as [[xs st3]| | |] eqn:E2; try discriminate; [|congruence].
+        specialize (Hc2 _ _ eq_refl). apply IH. lia.
+  Qed.
+
+  Theorem parse_ascii_terminates : forall s, parse_ascii parse_f64 s <> FOutOfFuel.
+  Proof.
+    intros s. unfold parse_ascii.
+    destruct (read_T_spec (1, s)) as [Hf _].
+    destruct (read_T (1, s)) as [[hd st1]| | |]; try discriminate; [|congruence].
+    destruct (negb (bytes_eqb hd ascii_header)); [discriminate|].
+    destruct (read_usize_spec st1) as [Hf1 _].
+    destruct (read_usize st1) as [[v st2]| | |]; try discriminate; [|congruence].
+    destruct (read_T_spec st2) as [Hf2 _].
+    destruct (read_T st2) as [[dk st3]| | |]; try discriminate; [|congruence].
+    destruct (negb (bytes_eqb dk kw_dimension)); [discriminate|].
+    destruct (read_usize_spec st3) as [Hf3 _].
+    destruct (read_usize st3) as [[dim st4]| | |]; try discriminate; [|congruence].
+    apply parse_sections_fuel. lia.
+  Qed.
+End AsciiTermination.
